@@ -342,13 +342,20 @@ def run_server(rep, tier, seed, rng):
     thorough = tier == 'thorough'
     # design check of the publish path
     # (the thorough configurations contain the quick ones)
-    for cfgname in (['MC_OccPublish_thorough.cfg', 'MC_OccPublish_thorough2.cfg'] if thorough
+    # (_small carries the partition-state / API-path / negative-expectation dimensions: run in both tiers)
+    for cfgname in (['MC_OccPublish_thorough.cfg', 'MC_OccPublish_thorough2.cfg', 'MC_OccPublish_small.cfg'] if thorough
                     else ['MC_OccPublish.cfg', 'MC_OccPublish_small.cfg']):
-        res = tlc_check('MC_OccPublish.tla', cfgname, timeout=3000, coverage=thorough)
+        res = tlc_check('MC_OccPublish.tla', cfgname, timeout=3000,
+                        coverage=thorough and cfgname != 'MC_OccPublish_small.cfg')
         rep.add_design(cfgname[:-4], res)
         core.log('design check %s: %d distinct states, %.0f s' % (cfgname, res['distinct'], res['wall']))
-        if res.get('zero_cov'):
-            raise core.Inconclusive('actions never taken in the design check %s: %s' % (cfgname, res['zero_cov']))
+        # the two large configs have MaxPauses = 0 (PauseStream is exercised by MC_OccPublish_small.cfg)
+        skip = {'MCPause'} if cfgname in ('MC_OccPublish_thorough.cfg', 'MC_OccPublish_thorough2.cfg') else set()
+        zero = [z for z in res.get('zero_cov', []) if z not in skip]
+        rep.cov['coverage_zero_actions'] = [z for z in rep.cov['coverage_zero_actions']
+                                            if not (z.split(':')[0] == cfgname[:-4] and z.split(':')[1] in skip)]
+        if zero:
+            raise core.Inconclusive('actions never taken in the design check %s: %s' % (cfgname, zero))
     # design-level self-test: the broken loops must violate the C16 predicates in the model
     if thorough:
         killed = []
